@@ -700,12 +700,13 @@ class EigWP(IdEnvWP):
             a, b = self.ev(args[0]), self.ev(args[1])
             if not isinstance(a, AV) and not isinstance(b, AV):
                 return None
-            want = {'operator<': 'cmp_LT', 'operator<=': 'cmp_LE', 'operator>': 'cmp_GT', 'operator>=': 'cmp_GE'}[op]
+            # Eigen spells the comparison as an enumerator of ComparisonName (clang prints it by name or by value); a > b and
+            # a >= b are implemented as b < a and b <= a (EIGEN_MAKE_CWISE_COMP_R_OP)
+            want = {'operator<': ('cmp_LT',), 'operator<=': ('cmp_LE',), 'operator>': ('cmp_GT', 'cmp_LT'), 'operator>=': ('cmp_GE', 'cmp_LE')}[op]
+            code = {'cmp_LT': '1', 'cmp_LE': '2', 'cmp_GT': '5', 'cmp_GE': '6'}
             t = type_str(n)
-            # Eigen spells the comparison as an enumerator; clang prints it either by name or by value
-            code = {'cmp_LT': '1', 'cmp_LE': '2', 'cmp_GT': '5', 'cmp_GE': '6'}[want]
-            if not re.search(r'scalar_cmp_op<double, double, (\(Eigen::internal::ComparisonName\)' + code + r'|Eigen::internal::' + want + ')', t):
-                raise Unsupported(f'{self.name}: {op}: result type is not the matching scalar_cmp_op: {t[:120]}')
+            if not any(re.search(r'scalar_cmp_op<double, double, (\(Eigen::internal::ComparisonName\)' + code[w] + r'|Eigen::internal::' + w + ')', t) for w in want):
+                raise Unsupported(f'{self.name}: {op}: result type is not the matching scalar_cmp_op: {t[:160]}')
             r = self.bin_cw(op[len('operator'):], a, b, n)
             r.kind = 'Bool'
             return r
@@ -843,23 +844,20 @@ class EigWP(IdEnvWP):
         self.ex(init)
         declared = [v['name'] for v in init['inner'] if v.get('kind') == 'VarDecl']
         ivar = declared[0]
-        c = unwrap(cond) if cond else None
-        if c is None or c.get('kind') != 'BinaryOperator' or c.get('opcode') != '<':
-            raise Unsupported(f'{self.name}: loop {lp} condition is not `index < bound`')
-        cl = unwrap(c['inner'][0])
-        if cl.get('kind') != 'DeclRefExpr' or cl['referencedDecl']['name'] != ivar:
-            raise Unsupported(f'{self.name}: loop {lp} condition does not test the loop index')
         i0 = self.env[ivar]
-        bound = self.ev(c['inner'][1])
+        if cond is None:
+            raise Unsupported(f'{self.name}: loop {lp} without a condition')
         u = unwrap(inc) if inc else None
         if u is None or u.get('kind') != 'UnaryOperator' or u.get('opcode') != '++' or unwrap(u['inner'][0]).get('referencedDecl', {}).get('name') != ivar:
             raise Unsupported(f'{self.name}: loop {lp} increment is not ++index')
         self.oblige(f'loop {lp} visits every coordinate: the index starts at 0', f'(= {i0.t} 0)', n)
-        self.loop_bounds = getattr(self, 'loop_bounds', []) + [(lp, bound.t)]
-        # generic iteration
+        # generic iteration: an index for which the loop condition holds
         idx = self.fresh('Int', 'i', 'long')
-        self.assume(f'(and (<= 0 {idx.t}) (< {idx.t} {bound.t}))')
+        nf = len(self.facts)
         self.env[ivar] = idx
+        cterm = self.conv(self.ev(cond), 'Bool', 'bool').t
+        self.assume(f'(<= 0 {idx.t})')
+        self.assume(cterm)
         self.loop_index = idx.t
         self.loop_lens = set()
         mod = self.assigned_scalars(body)
@@ -873,13 +871,14 @@ class EigWP(IdEnvWP):
                 self.env[v] = heads[v][1]
         g0 = self.guard
         r0 = self.returns
-        nf = len(self.facts)
         self.ex(body)
         if self.returns != r0 or self.guard == 'false':
             raise Unsupported(f'{self.name}: return inside a coordinate-wise loop')
         self.guard = g0
+        del self.facts[nf:]          # facts about the generic iteration do not outlive it
         for ln in sorted(self.loop_lens):
-            self.oblige(f'loop {lp} visits every coordinate: the bound is the length of the arrays it indexes', f'(= {bound.t} {ln})', n)
+            self.oblige(f'loop {lp} visits every coordinate: the loop condition holds exactly for the indices below the length of the arrays it indexes',
+                        f'(=> (<= 0 {idx.t}) (= {cterm} (< {idx.t} {ln})))', n)
         # accumulators: new == head + delta, delta independent of every loop-carried value
         for v, (old, head) in heads.items():
             new = self.env[v]
@@ -890,7 +889,6 @@ class EigWP(IdEnvWP):
             self.oblige(f'loop {lp}: accumulator {v} is updated additively', f'(= {new.t} (+ {head.t} {delta}))', n)
             self.env[v] = V(f'(+ {old.t} (nv_sum {delta}))', 'Real', 'double')
         self.loop_index = None
-        del self.facts[nf:]          # facts about the generic iteration (0 <= i < bound, ..) do not outlive the loop
         for k in list(self.env):
             if k not in env_out:
                 del self.env[k]
